@@ -193,12 +193,18 @@ pub fn run(ctx: &Ctx) -> Outcome {
         let cfg2 = TapeCfg::new(ctx, 300, 20_000, 600);
         out.absorb(tape_search(ctx, "programs", &cfg2, check_prog, describe_prog_case));
     }
+    if !out.failed() {
+        // the PSR's field setters and getters agree (all 48 field combinations x every setter argument)
+        if let Err(m) = psr_fields(&mut out.stats) {
+            out.failure = Some(Failure { case: json!({"psr_fields": true}), message: m, description: json!("PSR field setters/getters") });
+        }
+    }
     out.essential = [
         "BR:ok", "ADD:ok", "AND:ok", "NOT:ok", "LEA:ok", "LD:ok", "LD:Acv", "LD:real-Acv", "ST:ok", "ST:Acv", "LDR:ok", "LDR:Acv", "STR:ok", "STR:Acv", "LDI:ok", "LDI:Acv", "STI:ok", "STI:Acv",
         "JMP:ok", "JSR:ok", "JSRR:ok", "TRAP:ok", "TRAP:halt", "RTI:ok", "RTI:Privilege", "RTI:real-Privilege",
         "trap-entry-from-user", "trap-entry-from-supervisor", "rti-to-user", "rti-to-supervisor", "interrupt-taken-from-user", "interrupt-taken-from-supervisor", "interrupt-masked",
         "real-exception-fetch:Acv", "real-exception-decode:IllegalOpcode", "real-exception-decode:InvalidFormat", "real-exception-execute:Acv", "real-exception-execute:Privilege",
-        "mmio:xFE00", "mmio:xFE02", "mmio:xFE04", "mmio:xFE06", "mmio:xFFFC", "mmio:xFFFE",
+        "mmio:xFE00", "mmio:xFE02", "mmio:xFE04", "mmio:xFE06", "mmio:xFFFC", "mmio:xFFFE", "psr-field-setters",
     ]
     .iter()
     .map(|s| s.to_string())
@@ -206,7 +212,63 @@ pub fn run(ctx: &Ctx) -> Outcome {
     out
 }
 
+/// Setting one field of a PSR changes that field to the given value and no other field.
+fn psr_fields(st: &mut Stats) -> Result<(), String> {
+    use lc3_ensemble::sim::PSR;
+    let fields = |p: &PSR| (p.privileged(), p.priority(), p.cc());
+    for privl in [false, true] {
+        for prio in 0..8u8 {
+            for cc in [1u8, 2, 4] {
+                let mk = || {
+                    let mut p = PSR::new();
+                    p.set_privileged(privl);
+                    p.set_priority(prio);
+                    p.set_cc(cc);
+                    p
+                };
+                let p = mk();
+                if fields(&p) != (privl, prio, cc) {
+                    return Err(format!("PSR built with set_privileged({privl}), set_priority({prio}), set_cc({cc}) reports {:?} (bits x{:04X})", fields(&p), p.get()));
+                }
+                let bits = ((!privl as u16) << 15) | ((prio as u16) << 8) | cc as u16;
+                if p.get() != bits {
+                    return Err(format!("PSR with privileged={privl}, priority={prio}, cc={cc} has bits x{:04X}, expected x{bits:04X}", p.get()));
+                }
+                for b in [false, true] {
+                    let mut q = mk();
+                    q.set_privileged(b);
+                    st.evaluations += 1;
+                    if fields(&q) != (b, prio, cc) {
+                        return Err(format!("set_privileged({b}) on x{bits:04X} gives {:?}", fields(&q)));
+                    }
+                }
+                for k in 0..8u8 {
+                    let mut q = mk();
+                    q.set_priority(k);
+                    st.evaluations += 1;
+                    if fields(&q) != (privl, k, cc) {
+                        return Err(format!("set_priority({k}) on x{bits:04X} gives {:?}", fields(&q)));
+                    }
+                }
+                for c in [1u8, 2, 4] {
+                    let mut q = mk();
+                    q.set_cc(c);
+                    st.evaluations += 1;
+                    if fields(&q) != (privl, prio, c) || (q.is_n(), q.is_z(), q.is_p()) != (c == 4, c == 2, c == 1) {
+                        return Err(format!("set_cc({c}) on x{bits:04X} gives {:?}", fields(&q)));
+                    }
+                }
+            }
+        }
+    }
+    st.class("psr-field-setters");
+    Ok(())
+}
+
 pub fn replay(_ctx: &Ctx, case: &Value, st: &mut Stats) -> Result<(), String> {
+    if case.get("psr_fields").is_some() {
+        return psr_fields(st);
+    }
     if case.get("state").is_some() {
         return check_case(&case_from_json(&case["state"])?, st);
     }
